@@ -31,6 +31,7 @@ type thread struct {
 	wake    chan struct{}
 	exited  chan struct{}
 	done    bool
+	daemon  bool
 	started bool
 	// pending operation
 	what     string
@@ -209,6 +210,23 @@ func Go(fn func()) {
 	point("go", nil, false)
 }
 
+// GoDaemon starts a logical thread that does not count for deadlock detection (modelled timers).
+func GoDaemon(fn func()) {
+	s := S
+	if s == nil {
+		go fn()
+		return
+	}
+	if s.aborted {
+		runtime.Goexit()
+	}
+	t := s.cur
+	nt := s.spawn(t, fn)
+	nt.daemon = true
+	t.observe("godaemon", nil, nt.name)
+	point("go", nil, false)
+}
+
 // observe folds one executed operation into the running thread's history.
 func (t *thread) observe(kind string, o *object, seen uint64) {
 	var on uint64
@@ -312,7 +330,7 @@ func (s *sched) yield(t *thread) {
 	}
 	if len(en) == 0 {
 		for _, th := range s.threads {
-			if !th.done {
+			if !th.done && !th.daemon {
 				s.x.Deadlock = true
 			}
 		}
